@@ -9,6 +9,8 @@ offline monitor may report rho(0) > 0 (nothing is claimed at exactly 0). For rho
 """
 import copy
 
+import json
+
 from .. import specgen as sg
 from .. import monitors as M
 from .. import world
@@ -32,7 +34,7 @@ ASSUMPTIONS = ['violated at 0 means rho(0) < 0 (the trigger of explain()); a cor
 REAL = common.REAL_ALL + ['rtamt STL explainer']
 STUBS = common.STUBS_ALL
 PROBES = ['violated_and_explained', 'satisfied_nothing_reported', 'variable_occurs_twice', 'window_beyond_trace', 'unreported_samples_exist',
-          'everything_reported', 'log_longer_than_257_samples']
+          'everything_reported', 'log_longer_than_257_samples', 'with_subspecs']
 ENVELOPE_RULES = []
 
 EXPLAIN_OPS = set(sg.ALL_OPS) - {'since', 'until', 'unless', 'since_b', 'until_b', 'unless_b', 'ln', 'log'}
@@ -109,7 +111,41 @@ def _gen(rng):
             data[v] = [(rng.choice(sg.LATTICE) if rng.random() < blips else base) for _ in range(n)]
     nc = 24
     rnd = [[rng.choice(sg.LATTICE) for _ in range(n * nv)] for _ in range(nc)]
-    return {'vars': vars_, 'ast': ast, 'n': n, 'data': data, 'rnd': rnd}
+    modular = None
+    if rng.random() < 0.25 and sg.size(ast) >= 4:
+        # the same requirement written with named sub-specifications (shared nodes in the explained tree)
+        defs, top = sg.modularize(rng, ast, max_subs=2, prefer_stateful=rng.random() < 0.5)
+        modular = {'key': json.dumps(ast), 'defs': defs, 'subs': ['%s = %s;' % (nm, sg.to_text(a)) for nm, a in defs],
+                   'top': 'out = ' + sg.to_text(top) + ';'}
+    if rng.random() < 0.08:
+        # directed: one named sub-specification below a universal operator (explained at isolated samples, leaving gaps)
+        # and below an existential window (explained over one contiguous interval), all violated
+        n = rng.randint(5, 10)
+        xv, yv = rng.choice(vars_), rng.choice(vars_)
+        c1, c2 = rng.choice([-1.0, 0.0, 1.0]), rng.choice([-1.0, 0.0, 1.0])
+        p_, q_ = ['pred', '>', ['var', xv], ['const', c1]], ['pred', '>', ['var', yv], ['const', c2]]
+        if xv == yv:
+            q_ = ['pred', '<', ['var', yv], ['const', c1 - 3.0]]
+        uni = rng.choice(['always', 'historically', 'always_b'])
+        exi = rng.choice(['eventually_b', 'eventually_b', 'once_b', 'eventually'])
+        k = rng.randint(2, n - 1)
+
+        def mk(pp):
+            u = [uni, ['or', pp, q_]] if uni != 'always_b' else [uni, 0, n - 1, ['or', pp, q_]]
+            e = [exi, pp] if exi == 'eventually' else [exi, 0, k, pp]
+            return [rng.choice(['or', 'or', 'and']), u, e] if rng.random() < 0.7 else ['or', e, u]
+        st = rng.getstate()
+        ast = mk(p_)
+        rng.setstate(st)
+        top = mk(['ref', 'p1'])
+        data = dict((v, [0.0] * n) for v in vars_)
+        data[xv] = [c1 - rng.choice([0.5, 1.0, 2.0]) for _ in range(n)]                     # p1 false everywhere
+        if yv != xv:
+            blips = set(rng.sample(range(n), rng.randint(1, 3)))
+            data[yv] = [(c2 - 1.0 if i in blips else c2 + rng.choice([0.5, 1.5])) for i in range(n)]   # q false at a few isolated samples
+        rnd = [[rng.choice(sg.LATTICE) for _ in range(n * nv)] for _ in range(nc)]
+        modular = {'key': json.dumps(ast), 'defs': [['p1', p_]], 'subs': ['p1 = %s;' % sg.to_text(p_)], 'top': 'out = ' + sg.to_text(top) + ';'}
+    return {'vars': vars_, 'ast': ast, 'n': n, 'data': data, 'rnd': rnd, 'modular': modular}
 
 
 def reported_positions(expl, vars_, n):
@@ -164,6 +200,22 @@ def run(sc):
         return r
     text = 'out = ' + sg.to_text(ast) + ';'
     desc = {'cls': 'dt_off', 'vars': common.var_decls(sc['vars']), 'spec': text}
+    m = sc.get('modular')
+    # every assertion (named sub-specification or top) is a specification of its own for explain(): the ones violated at 0
+    # are explained, the reported positions are the union
+    targets = [['out', ast]]
+    if m and m['key'] == json.dumps(ast):
+        desc['subspecs'] = m['subs']
+        desc['spec'] = m['top']
+        text = ' '.join(m['subs'] + [m['top']])
+        r.probes['with_subspecs'] += 1
+        targets = [[nm, sg.inline(m['defs'], a)] for nm, a in m['defs']] + targets
+    try:
+        refs = dict((nm, eval_discrete(a, data, n)) for nm, a in targets)
+    except RefError:
+        r.discarded = True
+        return r
+    violated = [[nm, a] for nm, a in targets if refs[nm][0] < 0]
     try:
         spec = M.build(desc)
         out = M.dt_evaluate(spec, list(range(n)), data)
@@ -182,8 +234,11 @@ def run(sc):
     r.sim_time += n
     rep = reported_positions(names, sc['vars'], n)
     r.evals += 1
-    if not rho0 < 0:
-        if rho0 > 0:
+    if (rho0 < 0) != (ref[0] < 0) and not M.num_eq(rho0, ref[0]):
+        r.violate('robustness-at-0-equals-reference', spec=text, data=data, why='robustness at 0 differs from the reference', got=rho0, want=ref[0])
+        return r
+    if not violated:
+        if all(refs[nm][0] > 0 for nm, _ in targets):
             r.probes['satisfied_nothing_reported'] += 1
             if any(rep[v] for v in sc['vars']) or expl:
                 r.violate('nothing-reported-when-satisfied', spec=text, data=data, rho0=rho0, explanations=names)
@@ -203,22 +258,24 @@ def run(sc):
         r.probes['window_beyond_trace'] += 1
     for name, cd in corruptions(sc, rep):
         r.faults['corrupt_unreported'] += 1
-        try:
-            ref2 = eval_discrete(ast, cd, n)
-        except RefError:
-            continue
-        r.evals += 1
-        if ref2[0] > 0:
+        for tname, tast in violated:
             try:
-                out2 = M.dt_evaluate(M.build(desc), list(range(n)), cd)
-                real2 = out2[0][1]
-            except M.ApiCrash:
-                real2 = None
-            if real2 is None or real2 > 0:
-                r.violate('explanation-is-sufficient-cause', spec=text, data=data, rho0=rho0,
-                          explanations=dict((v, sorted(rep[v])) for v in sc['vars']), raw=dict((v, names.get(v)) for v in sc['vars']),
-                          corruption=name, corrupted=cd, rho0_on_corrupted=ref2[0])
-                return r
+                ref2 = eval_discrete(tast, cd, n)
+            except RefError:
+                continue
+            r.evals += 1
+            if ref2[0] > 0:
+                try:
+                    d2 = desc if tname == 'out' else dict(desc, subspecs=[], spec='out = ' + sg.to_text(tast) + ';')
+                    out2 = M.dt_evaluate(M.build(d2), list(range(n)), cd)
+                    real2 = out2[0][1]
+                except M.ApiCrash:
+                    real2 = None
+                if real2 is None or real2 > 0:
+                    r.violate('explanation-is-sufficient-cause', spec=text, assertion=tname, data=data, rho0=refs[tname][0],
+                              explanations=dict((v, sorted(rep[v])) for v in sc['vars']), raw=dict((v, names.get(v)) for v in sc['vars']),
+                              corruption=name, corrupted=cd, rho0_on_corrupted=ref2[0])
+                    return r
     if unrep and any(rep[v] for v in sc['vars']):
         r.nontrivial.add('%s|n=%d|%s' % (sg.shape(ast), n, ';'.join(','.join(map(str, sorted(rep[v]))) for v in sc['vars'])))
     return r
